@@ -2,6 +2,7 @@
 
 from __future__ import annotations
 
+import fnmatch
 import hashlib
 import json
 import os
@@ -20,16 +21,24 @@ def load_known(prop: str) -> list[dict]:
     if not KNOWN.exists():
         return []
     data = json.loads(KNOWN.read_text())
-    return [e for e in data.get("findings", []) if e.get("property") == prop]
+    out = []
+    for e in data.get("findings", []):
+        props = e.get("properties") or [e.get("property")]
+        if prop in props:
+            out.append(e)
+    return out
 
 
 def match_known(known: list[dict], signature: str) -> dict | None:
     for e in known:
         if e.get("status") != "open":
             continue  # a fixed entry suppresses nothing
-        sigs = e.get("signatures") or [e.get("signature")]
+        sigs = e.get("signatures") or ([e["signature"]] if e.get("signature") else [])
         if signature in sigs:
             return e
+        for pat in e.get("signature_patterns", []):
+            if fnmatch.fnmatchcase(signature, pat):
+                return e
     return None
 
 
